@@ -6,6 +6,10 @@ import (
 	"io"
 	"net/http"
 	"net/url"
+	"os"
+	"time"
+
+	"github.com/ollama/ollama/api"
 )
 
 // C03, the request layer under every pull step: the REAL makeRequestWithRetry (status handling, one
@@ -63,4 +67,37 @@ func VerifC03Request() {
 	if len(vfReqStatuses) == 2 {
 		verifAssert(vfReqStatuses[0] == http.StatusUnauthorized, "retry-only-after-a-401")
 	}
+}
+
+// ---- the digest of a layer comes from the served manifest: every short string ----
+
+func vfModelsDir() string                                 { return "/models" }
+func vfMkdirAllOK(path string, perm os.FileMode) error    { return nil }
+func vfStatBlobsDir(name string) (os.FileInfo, error) {
+	if name == "/models/blobs" {
+		return vfDirInfo{}, nil
+	}
+	return nil, os.ErrNotExist
+}
+
+type vfDirInfo struct{}
+
+func (vfDirInfo) Name() string       { return "blobs" }
+func (vfDirInfo) Size() int64        { return 4096 }
+func (vfDirInfo) Mode() os.FileMode  { return os.ModeDir | 0o755 }
+func (vfDirInfo) ModTime() time.Time { return time.Time{} }
+func (vfDirInfo) IsDir() bool        { return true }
+func (vfDirInfo) Sys() any           { return nil }
+
+func vfPrepareFail(b *blobDownload, ctx context.Context, requestURL *url.URL, opts *registryOptions) error {
+	return errors.New("HEAD failed")
+}
+
+// VerifC03LayerDigest: downloadBlob with the real GetBlobsPath for every digest string of up to maxLen
+// bytes a served manifest may carry (a malformed manifest must produce an error, never a crash).
+func VerifC03LayerDigest(maxLen int) {
+	d := verifNondetString("digest", maxLen)
+	_, err := downloadBlob(context.Background(), downloadOpts{mp: ModelPath{Namespace: "library", Repository: "m"}, digest: d, regOpts: &registryOptions{}, fn: func(api.ProgressResponse) {}})
+	verifReach("returned")
+	verifAssert(err != nil, "malformed-layer-digest-is-an-error")
 }
